@@ -162,6 +162,8 @@ def main(argv=None):
     spaces = mod.spaces(tier, seed)
     if a.only:
         spaces = [s for s in spaces if a.only in s.name]
+    _entries = findings.load()
+    ex.KNOWN_MATCH = lambda sig: findings.match(pid, jsonable(sig), _entries) is not None
     rep = ex.explore(spaces, jobs=a.jobs, log=log, task_timeout=420.0 if tier == 'quick' else 2400.0) if spaces else {'spaces': [], 'fatal': None,
                                                                   'complete': True}
     sp_reports = rep['spaces']
